@@ -43,6 +43,9 @@ func VerifC05KeySelection() {
 	var zero time.Duration
 	a := &jwtAuthenticator{id: "jwt", sf: vSubjectFactory{id: "jwt-subject"}, ttl: &zero,
 		a: oauth2.Expectation{TrustedIssuers: []string{issuer}, ScopesMatcher: oauth2.NoopMatcher{}, AllowedAlgorithms: defaultAllowedAlgorithms()}}
+	if verifapi.NondetBool("assertions.issuers.from-metadata-only") {
+		a.a.TrustedIssuers = nil // the issuer of the server metadata is the trusted one
+	}
 	ctx := &vC11Ctx{app: context.Background()}
 	var token *jwt.JSONWebToken
 	if verifapi.Symbolic() {
@@ -83,9 +86,12 @@ func VerifC05KeySelection() {
 		a.r = vMetadataResolver{md: oauth2.ServerMetadata{Issuer: issuer, JWKSEndpoint: &endpoint.Endpoint{URL: srv.URL, Method: "GET"}}}
 	}
 
+	snap := verifapi.Snapshot(a)
 	rawClaims, err := a.verifyToken(ctx, token)
 	accepted := err == nil && len(rawClaims) != 0
 	verifapi.Cover("verified")
+	// C17: verifying a token does not write to the (shared) authenticator
+	verifapi.Assert("C17/execute/jwt-authenticator-unchanged-by-verifying-a-token", !verifapi.Changed(snap))
 
 	signatureOK := false
 	switch kidKind {
